@@ -1125,7 +1125,7 @@ pruned:
 			x.fail("method %s not found on %s", m.Name(), typeString(c))
 		}
 		x.paths++
-		x.callFunc(s2, f2, ci, fn, append([]Val{rv}, args...), k)
+		x.tryPath(func() { x.callFunc(s2, f2, ci, fn, append([]Val{rv}, args...), k) })
 	}
 }
 
